@@ -55,3 +55,29 @@ assert a in s and b in s
 s = s[:s.index(a) + len(a)] + "\n" + text + "\n" + s[s.index(b):]
 open(path, "w").write(s)
 print("appendix regenerated:", len(out), "lines")
+
+# ---- section 6: seeded changes (from seeded/<id>/meta.json) ----
+rows = ["| property | change (one line) | what it needs to manifest | caught | how / what had to be strengthened |", "|---|---|---|---|---|"]
+sd = os.path.join(HERE, "seeded")
+n = {"yes": 0, "after-strengthening": 0, "no": 0}
+for pid in sorted(os.listdir(sd)) if os.path.isdir(sd) else []:
+    mp = os.path.join(sd, pid, "meta.json")
+    if not os.path.exists(mp):
+        continue
+    m = json.load(open(mp))
+    v = m.get("verified_by_me", {})
+    det = v.get("check_detects", "?")
+    n[det] = n.get(det, 0) + 1
+    cell = lambda t: " ".join(str(t).split()).replace("|", "\\|")     # noqa: E731
+    short = lambda t, k: (cell(t)[:k] + "…") if len(cell(t)) > k else cell(t)    # noqa: E731
+    rows.append(f"| {pid} | {short(m.get('summary', ''), 260)} | {short(m.get('needs_to_manifest', ''), 220)} | "
+                f"{'directly' if det == 'yes' else det} | {short(v.get('note', ''), 400)} |")
+head = (f"{sum(n.values())} seeded changes are kept under `seeded/<id>/` (patch.diff, demonstration, meta.json with the author's notes and my "
+        f"verification record): {n.get('yes', 0)} were caught by the check as it stood, {n.get('after-strengthening', 0)} only after the check was "
+        f"strengthened (the strengthening is described in the last column and is part of the committed check), {n.get('no', 0)} are not caught.\n")
+s = open(path).read()
+a, b = "<!-- SEEDED-BEGIN -->", "<!-- SEEDED-END -->"
+assert a in s and b in s
+s = s[:s.index(a) + len(a)] + "\n" + head + "\n" + "\n".join(rows) + "\n" + s[s.index(b):]
+open(path, "w").write(s)
+print("seeded table regenerated:", len(rows) - 2, "rows")
